@@ -4,6 +4,7 @@ import (
 	"fmt"
 	"go/ast"
 	"go/types"
+	"regexp"
 	"sort"
 	"strconv"
 	"strings"
@@ -445,6 +446,7 @@ func checkImageURLSources(p *core.Program, r *core.Report, rule string) {
 // checkSrcsetAgreement: the function that rewrites srcset and the function that lists its URLs
 // must tokenise the attribute with the same regular expression (and nothing else).
 func checkSrcsetAgreement(p *core.Program, r *core.Report, rule string) {
+	srcsetPats := map[string]bool{}
 	for _, key := range []string{domutilPkg + ".MakeAllSrcSetAbsolute", domutilPkg + ".GetSrcSetURLs"} {
 		fn := mustInl(p, r, rule, key)
 		if fn == nil {
@@ -466,6 +468,9 @@ func checkSrcsetAgreement(p *core.Program, r *core.Report, rule string) {
 					}
 					name := cf.String()
 					if strings.HasPrefix(name, "(*regexp.Regexp).") {
+						if a := core.NewCanon(p).Of(call.Call.Args[0]); strings.HasPrefix(a, "rx‹") {
+							srcsetPats[a] = true
+						}
 						if core.NewCanon(p).Of(call.Call.Args[0]) == rxSrcset {
 							usesRx = true
 						} else {
@@ -479,6 +484,33 @@ func checkSrcsetAgreement(p *core.Program, r *core.Report, rule string) {
 			}
 		}
 		r.Add(rule, core.ShortKey(fn)+" tokenises srcset with the reviewed srcset pattern only", p.Pos(fn.Pos()), usesRx && len(other) == 0, fmt.Sprintf("other tokenisers: %v", other))
+	}
+	// what the pattern constant says about fixed srcset values (compiled here, no code of the
+	// repository runs): group 1 of its matches are the candidate URLs, descriptors - a width with
+	// an optional height, or a density - belong to none of them
+	for _, pat := range sortedKeys(srcsetPats) {
+		re, err := regexp.Compile(strings.TrimSuffix(strings.TrimPrefix(pat, "rx‹"), "›"))
+		if err != nil {
+			continue
+		}
+		var wrong []string
+		for _, w := range []struct {
+			in   string
+			want []string
+		}{{"a.jpg", []string{"a.jpg"}}, {"a.jpg 1x, b.jpg 2x", []string{"a.jpg", "b.jpg"}}, {"a.jpg 1.5x,b.jpg 2x", []string{"a.jpg", "b.jpg"}},
+			{"a-480.jpg 480w, a-800.jpg 800w", []string{"a-480.jpg", "a-800.jpg"}}, {"a-640.jpg 640w 480h, b.jpg 2x", []string{"a-640.jpg", "b.jpg"}},
+			{"img/a,b.jpg 1x, c.jpg 2x", []string{"img/a,b.jpg", "c.jpg"}}} {
+			var got []string
+			for _, m := range re.FindAllStringSubmatch(w.in, -1) {
+				if len(m) > 1 {
+					got = append(got, m[1])
+				}
+			}
+			if strings.Join(got, "|") != strings.Join(w.want, "|") {
+				wrong = append(wrong, fmt.Sprintf("%q -> %v", w.in, got))
+			}
+		}
+		r.Add(rule, "the srcset pattern takes exactly the candidate URLs of a srcset value", "", len(wrong) == 0, strings.Join(wrong, "; ")+" [pattern "+pat+"]")
 	}
 }
 
